@@ -1,9 +1,133 @@
-(* C10 -- ternary encoding computes Kleene three-valued simulation.  Statements only; proofs in Proofs/TernaryProofs.v. *)
+(* C10 -- the ternary encoding computes Kleene three-valued simulation.  Statements only; proofs in Proofs/TernaryProofs.v. *)
 From stdpp Require Import strings gmap sets.
-From CG Require Import Model.Lint Model.Ternary Proofs.TernaryProofs.
+From CG Require Import Base.Cases Base.Oracle Model.Lint Model.Ternary Proofs.TernaryProofs.
 Open Scope string_scope.
 
-(* obligation on the regenerated table of tx.ternary: gate types of companions and helpers are the documented ones *)
+(* obligation on the regenerated table of tx.ternary: branch tests and the gate types of companions and helpers are
+   the documented ones (every theorem below is about the model instantiated with the generated table) *)
 Theorem C10_table_ok : gen_ttab = doc_ttab.
 Proof. vm_compute. reflexivity. Qed.
 Print Assumptions C10_table_ok.
+
+(* ---- one lemma per gate family, all arities: companion condition => Kleene gate function ---- *)
+Theorem C10_and_family : ∀ (v : val) (m : string → string) t n (fi : gset string), t = And ∨ t = Nand →
+  v n = gate_val t v fi →
+  (v (m n) = true ↔ (∃ p, p ∈ fi ∧ v (m p) = true) ∧ ∀ p, p ∈ fi → v (m p) = false → v p = true) →
+  Kv v m n = kgate t (Kv v m <$> elements fi).
+Proof. exact and_family. Qed.
+Print Assumptions C10_and_family.
+Theorem C10_or_family : ∀ (v : val) (m : string → string) t n (fi : gset string), t = Or ∨ t = Nor →
+  v n = gate_val t v fi →
+  (v (m n) = true ↔ (∃ p, p ∈ fi ∧ v (m p) = true) ∧ ∀ p, p ∈ fi → v (m p) = false → v p = false) →
+  Kv v m n = kgate t (Kv v m <$> elements fi).
+Proof. exact or_family. Qed.
+Print Assumptions C10_or_family.
+Theorem C10_parity_family : ∀ (v : val) (m : string → string) t n (fi : gset string), t = Xor ∨ t = Xnor →
+  v n = gate_val t v fi → (v (m n) = true ↔ ∃ p, p ∈ fi ∧ v (m p) = true) →
+  Kv v m n = kgate t (Kv v m <$> elements fi).
+Proof. exact xor_family. Qed.
+Print Assumptions C10_parity_family.
+Theorem C10_buf_family : ∀ (v : val) (m : string → string) t n p, t = Buf ∨ t = Not →
+  v n = gate_val t v {[p]} → v (m n) = v (m p) →
+  Kv v m n = kgate t (Kv v m <$> elements ({[p]} : gset string)).
+Proof. exact buf_family. Qed.
+Print Assumptions C10_buf_family.
+
+(* the gadgets built from the table's gate types compute exactly those companion conditions (any fan-in set) *)
+Theorem C10_ctl_gadget : ∀ (R : circuit) (m : string → string) (v : val), consistent R v →
+  ∀ n (fi : gset string),
+  (ctl_gadget R m (lit0 R m) n fi →
+     (v (m n) = true ↔ (∃ p, p ∈ fi ∧ v (m p) = true) ∧ ∀ p, p ∈ fi → negb (v p || v (m p)) = false)) ∧
+  (ctl_gadget R m (lit1 R m) n fi →
+     (v (m n) = true ↔ (∃ p, p ∈ fi ∧ v (m p) = true) ∧ ∀ p, p ∈ fi → v p && negb (v (m p)) = false)).
+Proof.
+  intros R m v Hv n fi. split; intros H.
+  - exact (ctl_sem R m v Hv _ (λ p, negb (v p || v (m p))) n fi (lit0_sem R m v Hv) H).
+  - exact (ctl_sem R m v Hv _ (λ p, v p && negb (v (m p))) n fi (lit1_sem R m v Hv) H).
+Qed.
+Print Assumptions C10_ctl_gadget.
+
+(* ---- whole circuit: every graph R with the gadget structure over c (tern_shape: c unchanged inside R, one companion
+   gadget per node) reads, under EVERY consistent binary valuation, as a Kleene-consistent valuation of c:
+   mapping[n] = 1 exactly where gate-by-gate Kleene evaluation gives X, the Kleene value at n elsewhere.
+   Relational, so cyclic c included; all gate types, arities, constants. ---- *)
+Theorem C10_shape_kleene : ∀ c R μ, tern_shape c R μ → ∀ v, consistent R v → kconsistent c (kof μ v).
+Proof. exact tern_shape_sound. Qed.
+Print Assumptions C10_shape_kleene.
+
+(* on acyclic c the Kleene-consistent valuation is unique, so the above IS Kleene simulation of the input pattern *)
+Theorem C10_kleene_unique : ∀ c (k k' : kval), closed c → acyclic c → kconsistent c k → kconsistent c k' →
+  (∀ n, n ∈ inputs c → k n = k' n) → (∀ n i, c !! n = Some i → n_ty i ≠ BbOut) → ∀ n, n ∈ dom c → k n = k' n.
+Proof. exact kconsistent_unique. Qed.
+Print Assumptions C10_kleene_unique.
+
+(* Kleene evaluation is sound for every replacement of X by 0/1 ... *)
+Theorem C10_kleene_sound : ∀ c (k : kval) (w : val), closed c → acyclic c → only_inputs_free c →
+  kconsistent c k → consistent c w → (∀ n, n ∈ inputs c → refines1 (k n) (w n)) → ∀ n, n ∈ dom c → refines1 (k n) (w n).
+Proof. exact kleene_sound. Qed.
+Print Assumptions C10_kleene_sound.
+(* ... hence: whenever mapping[n] is 0, n carries the value it has in c under every completion of the X inputs *)
+Theorem C10_completion : ∀ c R μ (v w : val), tern_shape c R μ → closed c → acyclic c → only_inputs_free c →
+  consistent R v → consistent c w →
+  (∀ i, i ∈ inputs c → v (mu_at μ i) = false → w i = v i) →
+  ∀ n, n ∈ dom c → v (mu_at μ n) = false → w n = v n.
+Proof. exact tern_shape_completion. Qed.
+Print Assumptions C10_completion.
+
+(* ---- the model of tx.ternary ---- *)
+(* full statement (DESIGN.md appendix C); NOT proved as a whole *)
+Definition C10_ternary_full : Prop := ∀ C nodes fo R μ,
+  lint_clean C → bb_free C → no_x (c_g C) → ternary C nodes fo = Ok (R, μ) →
+  dom μ = dom (c_g C) ∧ c_g C ⊆ c_g R ∧ lint_clean R ∧
+  inputs (c_g R) = inputs (c_g C) ∪ set_map (mu_at μ) (inputs (c_g C)) ∧
+  ∀ v, consistent (c_g R) v → kconsistent (c_g C) (kof μ v).
+(* the missing link: the sequential construction (uid-named helpers, placeholder companions, redefinition) always ends
+   in the gadget structure.  Needs freshness of every uid name and that helper names never equal companion names
+   (a suffix argument on strings).  Decided per generated case by `shapeb` in Run_C10.agree. *)
+Definition C10_model_shape_full : Prop := ∀ C nodes fo R μ,
+  lint_clean C → ternary C nodes fo = Ok (R, μ) → tern_shape (c_g C) (c_g R) μ.
+(* proved: everything except the link and lint_clean R, for every recorded order *)
+Theorem C10_ternary_partial : ∀ C nodes fo R μ, ternary C nodes fo = Ok (R, μ) →
+  bb_free C ∧ bb_free R ∧ μ = mapping (c_g C) ∧ dom μ = dom (c_g C) ∧
+  (tern_shape (c_g C) (c_g R) μ →
+     c_g C ⊆ c_g R ∧ inputs (c_g R) = inputs (c_g C) ∪ set_map (mu_at μ) (inputs (c_g C)) ∧
+     ∀ v, consistent (c_g R) v → kconsistent (c_g C) (kof μ v)).
+Proof.
+  intros C nodes fo R μ H. unfold ternary in H. apply ternary_ok_inv in H as (Hb & _ & -> & HbR & _ & _).
+  split; [done|]. split; [unfold bb_free; by rewrite HbR|]. split; [done|]. split; [apply dom_mapping|].
+  intros Hs. split; [exact (tern_shape_sub _ _ _ Hs)|]. split; [by destruct Hs as (_ & _ & ?)|]. by apply tern_shape_sound.
+Qed.
+Print Assumptions C10_ternary_partial.
+
+(* the executable checks used by the oracle decide the declarative notions *)
+Theorem C10_shapeb_spec : ∀ c R μ, shapeb c R μ = true ↔ tern_shape c R μ.
+Proof. exact shapeb_spec. Qed.
+Print Assumptions C10_shapeb_spec.
+Theorem C10_kconsistentb_spec : ∀ c k, kconsistentb c k = true ↔ kconsistent c k.
+Proof. exact kconsistentb_spec. Qed.
+Print Assumptions C10_kconsistentb_spec.
+
+(* ---- non-vacuity: a concrete circuit (all four gadget kinds, a constant, reconvergence, a name that collides with a
+   companion name) on which the model succeeds, the gadget structure holds and all side conditions are met ---- *)
+Definition ex_C : Circuit := mk "ex" [("a", Input, F, []); ("b", Input, F, []); ("a_X", Input, F, []); ("k", C1, F, []);
+  ("g", Nand, F, ["a"; "b"; "k"]); ("h", Nor, T, ["g"; "a"]); ("p", Xor, T, ["h"; "b"; "a_X"]); ("q", Not, T, ["p"])] [].
+Definition ex_fo (n : string) : list string :=
+  if decide (n = "g") then ["b"; "k"; "a"] else if decide (n = "h") then ["a"; "g"] else
+  if decide (n = "p") then ["a_X"; "h"; "b"] else if decide (n = "q") then ["p"] else [].
+Definition ex_nodes := ["q"; "a"; "g"; "b"; "a_X"; "k"; "h"; "p"].
+Definition ex_ok : bool :=
+  match ternary ex_C ex_nodes ex_fo with
+  | Ok (R, μ) => shapeb (c_g ex_C) (c_g R) μ && closedb (c_g ex_C) && acyclicb (c_g ex_C)
+                 && bool_decide (only_inputs_free (c_g ex_C)) && lint_cleanb ex_C && bool_decide (μ !! "a" = Some "a_X_0")
+  | _ => false end.
+Example C10_example_ok : ex_ok = true.
+Proof. vm_compute. reflexivity. Qed.
+Example C10_example : ∃ R μ, ternary ex_C ex_nodes ex_fo = Ok (R, μ) ∧
+  tern_shape (c_g ex_C) (c_g R) μ ∧ closed (c_g ex_C) ∧ acyclic (c_g ex_C) ∧ only_inputs_free (c_g ex_C) ∧ lint_clean ex_C.
+Proof.
+  pose proof C10_example_ok as H. unfold ex_ok in H.
+  destruct (ternary ex_C ex_nodes ex_fo) as [[R μ]| | |]; [|discriminate..].
+  exists R, μ. rewrite !andb_true_iff in H. destruct H as (((((H1 & H2) & H3) & H4) & H5) & H6).
+  split; [reflexivity|]. split; [by apply shapeb_spec|]. split; [by apply closedb_spec|]. split; [by apply acyclicb_sound|].
+  split; [by apply bool_decide_eq_true in H4|]. by apply bool_decide_eq_true in H5.
+Qed.
